@@ -95,6 +95,7 @@ func c12InitFailure() {
 		count("fault:init-config-failure")
 	}
 	kinds := []int{epTCPServer, epUDPServer, epTCPClient, epUDPClient, epSerial, epBroadcast, epCustom}
+	mayFail := false
 	for i := 0; i < n; i++ {
 		k := kinds[dsim.Choose(len(kinds))]
 		if i == failAt {
@@ -124,15 +125,32 @@ func c12InitFailure() {
 		case epSerial:
 			ep.serial.OpenErr = fmt.Errorf("no such device")
 		case epBroadcast:
-			if dsim.Choose(2) == 0 {
+			switch dsim.Choose(3) {
+			case 0:
 				e.w.ListenPacketPeer(ep.addr, 0) //nolint
-			} else {
+			case 1:
 				ep.conf = gomavlib.EndpointUDPBroadcast{BroadcastAddress: "nonsense", LocalAddress: ep.addr}
+			case 2:
+				// a doubtful configuration: whether it is accepted is not the property's business;
+				// that nothing is left behind either way is
+				bad := []string{"192.168.7.255:mavlink", "192.168.7.255:70000", "192.168.7.255:-1", "192.168.7.255:"}[dsim.Choose(4)]
+				ep.conf = gomavlib.EndpointUDPBroadcast{BroadcastAddress: bad, LocalAddress: ep.addr}
+				mayFail = true
+				count("fault:init-doubtful-config")
 			}
 		}
 	}
 	count("fault:init-failure")
 	err := e.startNode()
+	if err == nil && mayFail && !cfgFail {
+		// accepted: then it must close like any other node
+		dsim.Sleep(time.Duration(dsim.Choose(3000)) * time.Millisecond)
+		e.node.Close()
+		dsim.Sleep(5 * time.Second)
+		dsim.Settle("after-doubtful-close")
+		e.checkReleased("close-releases")
+		return
+	}
 	if err == nil {
 		if cfgFail {
 			dsim.Failf("init-failure-clean", "Initialize succeeded with an invalid configuration (%s)", cfg)
@@ -187,6 +205,7 @@ func c12Body() func(h []dsim.Rec) {
 	e := newEnv(cfg)
 	e.w.ChunkMode = dsim.Choose(3)
 	e.w.SendBuf = dsim.Pick(300, 1<<16, 4096)
+	e.w.SerialOpenLatency = dsim.Pick(time.Duration(0), 3*time.Millisecond, 45*time.Millisecond)
 	dsim.SetDate(time.Date(2026, 5, 1, 0, 0, 0, 0, time.UTC))
 	e.start = time.Now()
 	neps := 1 + dsim.Choose(depth(3, 5))
@@ -480,7 +499,7 @@ func init() {
 			}
 			return false
 		},
-		ProbeUniverse: []string{"fault:read-error-while-writer-stuck", "fault:peer-not-reading", "fault:dial-refused", "fault:dial-hang", "fault:dial-fail", "fault:serial-open-fail", "fault:write-block",
+		ProbeUniverse: []string{"fault:init-doubtful-config", "fault:read-error-while-writer-stuck", "fault:peer-not-reading", "fault:dial-refused", "fault:dial-hang", "fault:dial-fail", "fault:serial-open-fail", "fault:write-block",
 			"cov:write-backpressure", "fault:init-failure", "cov:consumer-stops", "cov:consumer-never-started", "fault:peer-close", "fault:peer-reset"},
 		Real: []string{"gomavlib (Node, Channel, channelProvider, all endpoint kinds, heartbeat, stream requests; instrumented with scheduling points only)", "pkg/frame", "pkg/message", "pkg/dialect", "pkg/streamwriter", "pkg/timednetconn"},
 		Stub: []string{"goroutine scheduler (dsim)", "clock (synctest)", "net sockets, listeners, dialer", "pion UDP listener", "serial port", "crypto/rand"},
